@@ -44,25 +44,27 @@ type pool struct {
 func (p *pool) Acquire(ctx context.Context) (v wire) {
 	p.cond.L.Lock()
 
-	// Set up ctx handling when waiting for an available connection
-	if len(p.list) == 0 && p.size == p.cap && !p.down && ctx.Err() == nil && ctx.Done() != nil {
-		poolCtx, cancel := context.WithCancelCause(ctx)
-		defer cancel(errAcquireComplete)
-
-		go func() {
-			<-poolCtx.Done()
-			if context.Cause(poolCtx) != errAcquireComplete { // no need to broadcast if the poolCtx is cancelled explicitly.
-				// a waiter that has checked ctx.Err() but not yet entered cond.Wait holds the lock:
-				// take the lock first so that the broadcast can't fall into that window and get lost.
-				p.cond.L.Lock()
-				p.cond.L.Unlock()
-				p.cond.Broadcast()
-			}
-		}()
-	}
+	var cancel context.CancelCauseFunc
 
 retry:
 	for len(p.list) == 0 && p.size == p.cap && !p.down && ctx.Err() == nil {
+		// Set up ctx handling when waiting for an available connection
+		if cancel == nil && ctx.Done() != nil {
+			var poolCtx context.Context
+			poolCtx, cancel = context.WithCancelCause(ctx)
+			defer cancel(errAcquireComplete)
+
+			go func() {
+				<-poolCtx.Done()
+				if context.Cause(poolCtx) != errAcquireComplete { // no need to broadcast if the poolCtx is cancelled explicitly.
+					// a waiter that has checked ctx.Err() but not yet entered cond.Wait holds the lock:
+					// take the lock first so that the broadcast can't fall into that window and get lost.
+					p.cond.L.Lock()
+					p.cond.L.Unlock()
+					p.cond.Broadcast()
+				}
+			}()
+		}
 		verifPoint("pool.acquire.wait")
 		p.cond.Wait()
 	}
